@@ -572,6 +572,10 @@ class Exec:
                 return bv(len(v.items), 64)
             raise Unsupported("Len of %r" % (v,))
         if rhs.startswith("[") and rhs.endswith("]"):
+            rep = split_top(rhs[1:-1], "; ")
+            if len(rep) == 2 and re.match(r"^\d+$", rep[1].strip()):
+                v = self.operand(st, rep[0])[0]            # repeat expression `[x; N]`
+                return PyVec([v] * int(rep[1]))
             return PyVec([self.operand(st, a)[0] for a in split_top(rhs[1:-1], ", ")])
         if rhs.startswith("(") and rhs.endswith(")") and balanced(rhs[1:-1]) and not re.match(r"^\(.*: [^,]*\)$", rhs):
             return Tup([self.operand(st, a)[0] for a in split_top(rhs[1:-1], ", ")])
@@ -1240,6 +1244,20 @@ def m_option_map_reverse(ex, st, a, dst, callee):
     return None
 
 
+def m_to_le_bytes(ex, st, a, dst, callee):
+    v = _dv(ex, st, a[0])
+    if not isinstance(v, z3.BitVecRef):
+        return None
+    return [(PyVec([z3.Extract(8 * i + 7, 8 * i, v) for i in range(v.size() // 8)]), [], None)]
+
+
+def m_from_le_bytes(ex, st, a, dst, callee):
+    v = _dv(ex, st, a[0])
+    if not isinstance(v, PyVec) or not all(isinstance(x, z3.BitVecRef) and x.size() == 8 for x in v.items):
+        return None
+    return [(z3.Concat(list(reversed(v.items))) if len(v.items) > 1 else v.items[0], [], None)]
+
+
 def m_int_arith(ex, st, a, dst, callee):
     m = re.search(r"num::<impl (\w+)>::(overflowing|wrapping|checked|saturating)_(add|sub|mul|neg)$", callee)
     if not m or m.group(1) not in INT_W:
@@ -1283,6 +1301,8 @@ def m_prim_default(ex, st, a, dst, callee):
 
 STD_CMP_MODELS = [
     (r"<\w+ as Default>::default$", m_prim_default),
+    (r"num::<impl [ui]\d+>::to_le_bytes$", m_to_le_bytes),
+    (r"num::<impl [ui]\d+>::from_le_bytes$", m_from_le_bytes),
     (r"num::<impl \w+>::(overflowing|wrapping|checked|saturating)_(add|sub|mul|neg)$", m_int_arith),
     (r"<\w+ as Ord>::cmp$", m_ord_cmp),
     (r"<f64 as PartialOrd>::partial_cmp$", m_f64_partial_cmp),
